@@ -200,6 +200,36 @@ def run(ctx):
     # ------------------------------------------------------------------ R3 singletons
     ctx.rule("R3", "parser singletons carry no per-analysis state")
     allowed_methods = {"__init__", "construct_parser", "__new__"}
+    # helpers of the construction: methods of the parser classes whose every call site in the package lies in a
+    # construction-time method (fixpoint); a reference that is not a call (bound method handed around) disqualifies
+    parser_methods = {}
+    for cname in ("BaseParser", "ParserX86ATT", "ParserAArch64"):
+        for mname, f in ctx.repo.cls(cname).methods.items():
+            parser_methods.setdefault(mname, []).append(f)
+    uses = {}
+    for g in ctx.repo.all_funcs():
+        called = {id(c.func) for c in ast.walk(g.node) if isinstance(c, ast.Call)}
+        for a in ast.walk(g.node):
+            if isinstance(a, ast.Attribute) and a.attr in parser_methods and isinstance(a.ctx, ast.Load):
+                uses.setdefault(a.attr, []).append((g, id(a) in called))
+    for caller_q, helper_q in getattr(ctx.repo, "inlined", []):
+        # call sites the expansion of new helpers (E12) removed
+        hm = helper_q.split(".")[-1]
+        if hm in parser_methods and any(m.qname == helper_q for m in parser_methods[hm]):
+            try:
+                uses.setdefault(hm, []).append((ctx.repo.func(caller_q), True))
+            except Exception:
+                pass
+    changed = True
+    while changed:
+        changed = False
+        for mname in parser_methods:
+            if mname in allowed_methods or mname.startswith("__") or not uses.get(mname):
+                continue
+            pq = {m.qname for ms in parser_methods.values() for m in ms}
+            if all(is_call and g.name in allowed_methods and g.qname in pq for g, is_call in uses[mname]):
+                allowed_methods.add(mname)
+                changed = True
     count = 0
     for cname in ("BaseParser", "ParserX86ATT", "ParserAArch64"):
         c = ctx.repo.cls(cname)
@@ -255,6 +285,42 @@ GLOBAL_SETTERS = {
 }
 # deliberately not listed (process-global, but without influence on a report): pyparsing packrat / left-recursion
 # switches (memoisation only), warnings filters and logging configuration (stderr only), umask, socket timeouts
+
+
+def _bracketed(m, store):
+    """`saved = L; L = new; try: ... finally: L = saved`: is `store` the setting or the restoring store of such a bracket?
+    The saved local is assigned once (from L, before the setting store, in the same block) and never stored otherwise; the
+    try statement directly follows the setting store; the restoring store is a top-level statement of its finally."""
+    L = U(store.targets[0])
+    fns = [f for f in ast.walk(m.tree) if isinstance(f, (ast.FunctionDef, ast.AsyncFunctionDef)) and any(x is store for x in ast.walk(f))]
+    if not fns:
+        return False
+    fn = min(fns, key=lambda f: sum(1 for _ in ast.walk(f)))
+    for blk_owner in ast.walk(fn):
+        for fld in ("body", "orelse", "finalbody"):
+            blk = getattr(blk_owner, fld, None)
+            if not isinstance(blk, list):
+                continue
+            for i, st in enumerate(blk):
+                if not (isinstance(st, ast.Try) and st.finalbody and i >= 2):
+                    continue
+                setting, saving = blk[i - 1], None
+                if not (isinstance(setting, ast.Assign) and len(setting.targets) == 1 and U(setting.targets[0]) == L):
+                    continue
+                for prev in blk[:i - 1]:
+                    if isinstance(prev, ast.Assign) and len(prev.targets) == 1 and isinstance(prev.targets[0], ast.Name) and U(prev.value) == L:
+                        saving = prev
+                if saving is None:
+                    continue
+                nm = saving.targets[0].id
+                stores = [x for x in ast.walk(fn) if isinstance(x, ast.Name) and x.id == nm and isinstance(x.ctx, (ast.Store, ast.Del))]
+                other_L = [x for x in blk[blk.index(saving) + 1:i - 1] for y in ast.walk(x)
+                           if isinstance(y, (ast.Attribute, ast.Subscript)) and isinstance(y.ctx, ast.Store) and U(y) == L]
+                restores = [x for x in st.finalbody if isinstance(x, ast.Assign) and len(x.targets) == 1 and U(x.targets[0]) == L
+                            and isinstance(x.value, ast.Name) and x.value.id == nm]
+                if len(stores) == 1 and not other_L and restores and (store is setting or any(store is r for r in restores)):
+                    return True
+    return False
 
 
 def library_state_findings(ctx, rule):
@@ -328,6 +394,9 @@ def library_state_findings(ctx, rule):
                 if isinstance(t, ast.Attribute) or (isinstance(t, ast.Subscript) and c[1]):
                     n += 1
                     w, q = where(node)
+                    if isinstance(node, ast.Assign) and len(node.targets) == 1 and _bracketed(m, node):
+                        ctx.ok(rule, "store %s in %s: set for the duration of a try block and put back in its finally" % (U(t), q), w)
+                        continue
                     ctx.bad(rule, "store %s in %s" % (U(t), q), w,
                             "`%s` is a store into state owned by the imported %s: it is shared by everything in the process "
                             "that uses the library" % (U(t)[:80], ext[c[0]]), q, U(node)[:120], m.excerpt(node))
